@@ -265,6 +265,9 @@ Section Algorithms.
         (unlink_levels uord s2 n (vlevel vx) (S (vlevel vx)), SOk)
     end.
 
+  (* the level-0 beam of a search: max(ef, min(k, Len())) — a beam wider than the index holds nothing more *)
+  Definition beam_width (s : hnsw) (k : nat) : nat := Nat.max (c_ef c) (Nat.min k (N.to_nat (hlen s))).
+
   (* Search(query, k): ids with their metadata and score, ascending *)
   Definition search (s : hnsw) (q : vec) (k : nat) : list (N * meta * Z) :=
     match entry s with
@@ -272,7 +275,7 @@ Section Algorithms.
     | Some e0 =>
         let elevel := vlevel (vget s e0) in
         let '(ep, _) := greedy_down s q e0 (vdist s q e0) elevel elevel in
-        let found := search_level s q ep (Nat.max (c_ef c) k) 0 in
+        let found := search_level s q ep (beam_width s k) 0 in
         let sel := select s q found k 0 in
         map (fun x => (vid (vget s (snd x)), vmeta (vget s (snd x)), fst x)) (firstn k sel)
     end.
@@ -284,7 +287,7 @@ Section Algorithms.
     | Some e0 =>
         let elevel := vlevel (vget s e0) in
         let '(ep, _) := greedy_down s q e0 (vdist s q e0) elevel elevel in
-        search_level s q ep (Nat.max (c_ef c) k) 0
+        search_level s q ep (beam_width s k) 0
     end.
 
   Definition getvertex (s : hnsw) (id : N) : option (meta * nat) :=
